@@ -37,6 +37,24 @@ def build_replay(repo):
 _BUILT = {}   # repo -> (ok, err): the replay crate is rebuilt from the working tree once per check process
 
 
+def run_panic_probe(wfile, repo, stress):
+    """C13 probe: run the program of ANY catalogued witness (its own conditions ignored) and report a panic or a hang."""
+    if repo not in _BUILT:
+        _BUILT[repo] = build_replay(repo)
+    ok, err = _BUILT[repo]
+    if not ok:
+        return {"reproduced": False, "error": "replay crate does not build: " + err}
+    cmd = [replay_bin(), "--file", wfile, "--only-panics"] + (["--stress-config"] if stress else [])
+    try:
+        p = subprocess.run(cmd, capture_output=True, text=True, timeout=30)
+    except subprocess.TimeoutExpired:
+        return {"reproduced": True, "output": "the call did not return within 30 s (REPRODUCED: hangs)", "witness_file": wfile, "stderr": ""}
+    out = p.stdout
+    crashed = p.returncode != 0 and "REPRODUCED" not in out     # abort / stack overflow of the process itself
+    return {"reproduced": ("REPRODUCED" in out and "NOT-REPRODUCED" not in out) or crashed, "output": out[-3000:] + ("\nprocess exit code %s" % p.returncode if crashed else ""),
+            "witness_file": wfile, "stderr": p.stderr[-1000:]}
+
+
 def run_witness(wfile, repo):
     if repo not in _BUILT:
         _BUILT[repo] = build_replay(repo)
